@@ -167,6 +167,15 @@ func (v *VerifCore) Heads() map[uint32]string {
 	return res
 }
 
+// SelectorNext asks the core's real peer selector for the next gossip target,
+// as the babble loop does.
+func (v *VerifCore) SelectorNext() *peers.Peer { return v.c.peerSelector.next() }
+
+// SelectorUpdateLast records the outcome of a gossip with a peer, as gossip() does.
+func (v *VerifCore) SelectorUpdateLast(id uint32, connected bool) bool {
+	return v.c.peerSelector.updateLast(id, connected)
+}
+
 // PromiseCount returns the number of outstanding join promises.
 func (v *VerifCore) PromiseCount() int { return len(v.c.promises) }
 
